@@ -816,7 +816,7 @@ func runC12(c *Ctx) {
 			c12TierB(c, env, 4)
 		}
 	}()
-	r.Rule = "ResourceSemaphore: op sequences (corpus + PRNG; client-protocol and raw-API streams; limits 1..40, 5..40 ops; amounts 0, small, =limit, >limit, negative in the raw stream; UpdateActual/UpdateSize/UpdateFreeUsed below, at and above the limit) + threshold-walk stream (limits 1..10^6 incl. powers of two and multiples of 64 +-2, amounts relative to the limit, next op chosen from the real state: availability updates through all entry points just below / exactly at / just above the point where the oldest waiter fits, steps of 1, 2, limit/1000, limit/64-+1, dip-and-recover, repeated observations), each executed on the real semaphore with one goroutine per Acquire and compared with Martian.Semaphore.step after every op (CurrentSize, Reserved, QueueLength, grants/rejections/panic/return value); non-trivial = at least one request had to queue; distinct = distinct (size, op sequence). Monitors on the real code after every op: grant fits, FIFO, no lost wake-up (against Available() and against the availability last reported to the semaphore), Reserved = sum held, Reserved <= limit. + concurrent stress rounds (every third with a large limit). MaxJobsSemaphore: op sequences vs MJ.step + |running| <= limit + no blocked waiter while there is room. GetSystemReqs: dyadic-rational requests vs Martian.Semaphore.normalize. LocalJobManager.Enqueue: real /bin/sh jobs, start/end log replayed against the limits with the model's Acquire amounts. Cluster mode: restart with --maxjobs; queue-query reconciliation scenarios (real queryQueue/checkQueue/failNotRunning/refreshState with a controlled query command and a shifted clock) vs Martian.SemaphoreQueue.step after every event + monitors lost-job-not-failed / healthy-job-failed; non-trivial = some job was marked"
+	r.Rule = "ResourceSemaphore: op sequences (corpus + PRNG; client-protocol and raw-API streams; limits 1..40, 5..40 ops; amounts 0, small, =limit, >limit, negative in the raw stream; UpdateActual/UpdateSize/UpdateFreeUsed below, at and above the limit) + threshold-walk stream (limits 1..10^6 incl. powers of two and multiples of 64 +-2, amounts relative to the limit, next op chosen from the real state: availability updates through all entry points just below / exactly at / just above the point where the oldest waiter fits, steps of 1, 2, limit/1000, limit/64-+1, dip-and-recover, repeated observations), each executed on the real semaphore with one goroutine per Acquire and compared with Martian.Semaphore.step after every op (CurrentSize, Reserved, QueueLength, grants/rejections/panic/return value); non-trivial = at least one request had to queue; distinct = distinct (size, op sequence). Monitors on the real code after every op: grant fits, FIFO, no lost wake-up (against Available() and against the availability last reported to the semaphore), Reserved = sum held, Reserved <= limit. + concurrent stress rounds (every third with a large limit). MaxJobsSemaphore: op sequences vs MJ.step + |running| <= limit + no blocked waiter while there is room. GetSystemReqs: dyadic-rational requests vs Martian.Semaphore.normalize. LocalJobManager.Enqueue: real /bin/sh jobs, start/end log replayed against the limits with the model's Acquire amounts. Cluster mode: restart with --maxjobs; queue-query reconciliation scenarios (real queryQueue/checkQueue/failNotRunning/refreshState with a controlled query command and a shifted clock) vs Martian.SemaphoreQueue.step after every event + monitors lost-job-not-failed / healthy-job-failed; non-trivial = some job was marked. refreshResources: isolated worker processes run the real refreshResources on production-shaped job managers with real jobs; per refresh the four semaphores vs Martian.SemaphoreRefresh for the observations read before and after the call + monitor fitting-job-parked; non-trivial = a refresh with something reserved or waiting"
 
 	reported := map[string]int{}
 	var cases []semCase
@@ -918,6 +918,9 @@ func runC12(c *Ctx) {
 	}
 	if c12Part("queue") {
 		runC12Queue(c)
+	}
+	if c12Part("refresh") {
+		runC12Refresh(c)
 	}
 	if c12Part("local") {
 		runC12Local(c)
